@@ -47,19 +47,24 @@ func (eval Evaluator) Trace(ctIn *Ciphertext, logN int, opOut *Ciphertext) (err 
 
 	*opOut.MetaData = *ctIn.MetaData
 
-	gap := 1 << (params.LogN() - logN - 1)
+	// The conjugate-invariant ring of degree N is the sub-ring of the standard ring
+	// of degree 2N fixed by X -> X^{-1}: the trace is the one of that standard ring,
+	// without the last step that applies X -> X^{-1}.
+	logNStd := params.LogN()
 
-	if logN == 0 {
+	if params.RingType() == ring.ConjugateInvariant {
+		logNStd++
+	}
+
+	gap := 1 << (logNStd - logN - 1)
+
+	if logN == 0 && params.RingType() == ring.Standard {
 		gap <<= 1
 	}
 
 	if gap > 1 {
 
 		ringQ := params.RingQ().AtLevel(level)
-
-		if ringQ.Type() == ring.ConjugateInvariant {
-			gap >>= 1 // We skip the last step that applies phi(5^{-1})
-		}
 
 		/* #nosec G115 -- gap cannot be negative */
 		NInv := new(big.Int).SetUint64(uint64(gap))
@@ -85,7 +90,7 @@ func (eval Evaluator) Trace(ctIn *Ciphertext, logN int, opOut *Ciphertext) (err 
 
 		buff.IsNTT = true
 
-		for i := logN; i < params.LogN()-1; i++ {
+		for i := logN; i < logNStd-1; i++ {
 
 			if err = eval.Automorphism(opOut, params.GaloisElement(1<<i), buff); err != nil {
 				return err
@@ -126,8 +131,14 @@ func GaloisElementsForTrace(params ParameterProvider, logN int) (galEls []uint64
 
 	p := params.GetRLWEParameters()
 
+	logNStd := p.LogN()
+
+	if p.RingType() == ring.ConjugateInvariant {
+		logNStd++
+	}
+
 	galEls = []uint64{}
-	for i, j := logN, 0; i < p.LogN()-1; i, j = i+1, j+1 {
+	for i, j := logN, 0; i < logNStd-1; i, j = i+1, j+1 {
 		galEls = append(galEls, p.GaloisElement(1<<i))
 	}
 
@@ -136,7 +147,7 @@ func GaloisElementsForTrace(params ParameterProvider, logN int) (galEls []uint64
 		case ring.Standard:
 			galEls = append(galEls, p.GaloisElementOrderTwoOrthogonalSubgroup())
 		case ring.ConjugateInvariant:
-			panic("cannot GaloisElementsForTrace: Galois element GaloisGen^-1 is undefined in ConjugateInvariant Ring")
+			// X -> X^{-1} is the identity on the conjugate-invariant ring: no additional element.
 		default:
 			panic("cannot GaloisElementsForTrace: invalid ring type")
 		}
